@@ -16,6 +16,7 @@ run b_text_line_buffer C04 C14 C16
 run b_collect_waits_by_load C02 C03 C12 C18
 run b_unregister_lookup_first C06 C07 C14 C17 C20
 run b_local_flush_all_buckets C02 C03 C08 C12 C18
+run b_f64_fetch_update C01 C11 C02 C12
 # independently written refactorings (sub-agents): every check against every patch
 if [ "$1" = "--independent" ]; then
   ALL="C01 C02 C03 C04 C05 C06 C07 C08 C09 C10 C11 C12 C13 C14 C15 C16 C17 C18 C19 C20"
